@@ -165,6 +165,7 @@ theorem constructors_establish_wf :
       mkTensor id shape data = some v → data.length ≤ usizeMax → v.WF) ∧
     (∀ (id rows columns : Nat) (data : List α) (r c : ν) (v : View ν α),
       mkMatrix id rows columns data r c = some v → data.length ≤ usizeMax → v.WF) ∧
+    (∀ (s : View ν α), s.WF → (View.tmap s).WF) ∧    -- `TensorMap::from` validates nothing
     (∀ (s v : View ν α), s.WF →
       (∀ r c, mkMatrixOf s r c = some v → v.WF) ∧
       (∀ rs, mkRange s rs = some v → v.WF) ∧ (∀ rs, mkRangeStrict s rs = some v → v.WF) ∧
@@ -185,7 +186,8 @@ theorem constructors_establish_wf :
       (∀ k, (v.setNames dimensions).2 = .panic k → (v.setNames dimensions).1 = v)) ∧
     (∀ (v s s' : View ν α), v.WF → s'.WF → v.sourceOf = some s →
       s'.shape.length = s.shape.length → (v.replaceSource s').WF) := by
-  refine ⟨fun _ _ _ _ h hm => mkTensor_wf h hm, fun _ _ _ _ _ _ _ h hm => mkMatrix_wf h hm, ?_, ?_,
+  refine ⟨fun _ _ _ _ h hm => mkTensor_wf h hm, fun _ _ _ _ _ _ _ h hm => mkMatrix_wf h hm,
+    fun s hs => by simpa only [View.WF] using hs, ?_, ?_,
     fun v ns hv hl => ⟨setNames_wf hv hl, fun k h => setNames_panic_unchanged v ns k h⟩,
     fun _ _ _ hv hs' hsrc hl => replaceSource_wf hv hs' hsrc hl⟩
   · intro s v hs
